@@ -504,6 +504,36 @@ func firstInfoHandOver(c *Ctx, id string) {
 			continue
 		}
 		n++
+		// the listener is subscribed by the constructor, unconditionally, a failure being fatal
+		subscribed := ""
+		for _, use := range w.usesAsValue(lis) {
+			fn := use.Parent()
+			allInstrs(fn, func(in ssa.Instruction) {
+				call, ok := in.(*ssa.Call)
+				if !ok || !call.Common().IsInvoke() || !strings.HasPrefix(call.Common().Method.Name(), "Subscribe") {
+					return
+				}
+				mine := false
+				for _, a := range call.Common().Args {
+					if w.boundMethodOf(a) == lis {
+						mine = true
+					}
+				}
+				if !mine {
+					return
+				}
+				fatal := false
+				for _, sk := range errorSinks(call) {
+					if sk.Kind == "panic" {
+						fatal = true
+					}
+				}
+				if fatal && len(liveGuards(in.Block())) == 0 {
+					subscribed = fname(fn)
+				}
+			})
+		}
+		c.Check(subscribed != "", id, "subscribed@"+fname(lis), lis.Pos(), "subscribed unconditionally by "+subscribed+", failure fatal", "the listener is not subscribed to the bus unconditionally with a fatal failure: the membership never learns its numbering and GetInfo waits for ever")
 		recv, mp := lis.Params[0].Name(), lis.Params[1].Name()
 		h := &Harness{Fn: lis, Bools: []string{recv + "." + field + "==nil"}, Quiet: quietLog}
 		c.oae(id, "first-info@"+fname(lis), lis.Pos(), h, func(st *State, out *Outcome) string {
@@ -574,7 +604,27 @@ func cbmRoundInputs(c *Ctx, id string) {
 	}
 	c.Check(okIn, id, "cbm:round-inputs", mon.Pos(), "the index is parsed only if it was read, the instances are read only if it parsed", "a monitor round goes on after it failed to read or parse the index: it would number the group from an empty or stale list")
 	okF, nApp := false, 0
-	allInstrs(mon, func(in ssa.Instruction) {
+	monUnit := []*ssa.Function{mon}
+	for g := range w.syncCallees(mon, 2, false) {
+		if g != mon && g.Pkg == mon.Pkg && g != ui && g != reg {
+			monUnit = append(monUnit, g) // the round's steps may live in helpers
+		}
+	}
+	var monInstrs []ssa.Instruction
+	for _, g := range monUnit {
+		for _, f := range withAnon(g) {
+			c.see(f)
+			for _, b := range f.Blocks {
+				monInstrs = append(monInstrs, b.Instrs...)
+			}
+		}
+	}
+	eachMon := func(_ *ssa.Function, f func(ssa.Instruction)) {
+		for _, in := range monInstrs {
+			f(in)
+		}
+	}
+	eachMon(mon, func(in ssa.Instruction) {
 		cc := callOf(in)
 		if cc == nil {
 			return
